@@ -286,13 +286,29 @@ func runChildUnder(tracer []string, jobPath string) childResult {
 	ctx, cancel := context.WithTimeout(context.Background(), 120*time.Second)
 	defer cancel()
 	argv := append(append([]string{}, tracer...), exe, "-test.run=^$")
-	cmd := exec.CommandContext(ctx, argv[0], argv[1:]...)
-	cmd.Env = append(os.Environ(), "VERIF_CHILD=untar", "VERIF_JOB="+jobPath)
-	cmd.Dir = "/"
-	cmd.WaitDelay = 5 * time.Second
+	var cmd *exec.Cmd
 	var stdout, stderr bytes.Buffer
-	cmd.Stdout, cmd.Stderr = &stdout, &stderr
-	runErr := cmd.Run()
+	var runErr error
+	// a child that cannot be STARTED (fork: EAGAIN/ENOMEM when the machine is out of processes or memory) says nothing
+	// about desync: the start is retried for a while, then the run ends inconclusive (exit 2), never with a verdict
+	for attempt := 0; ; attempt++ {
+		stdout.Reset()
+		stderr.Reset()
+		cmd = exec.CommandContext(ctx, argv[0], argv[1:]...)
+		cmd.Env = append(os.Environ(), "VERIF_CHILD=untar", "VERIF_JOB="+jobPath)
+		cmd.Dir = "/"
+		cmd.WaitDelay = 5 * time.Second
+		cmd.Stdout, cmd.Stderr = &stdout, &stderr
+		runErr = cmd.Run()
+		if cmd.ProcessState != nil || ctx.Err() != nil {
+			break
+		}
+		if attempt >= 40 {
+			fmt.Printf("SELFTEST-FAILURE: C18 infrastructure: the unpack child could not be started in %d attempts: %v\n", attempt+1, runErr)
+			os.Exit(2)
+		}
+		time.Sleep(500 * time.Millisecond)
+	}
 	var res childResult
 	res.Stderr = stderr.String()
 	if len(res.Stderr) > 4000 {
